@@ -937,7 +937,10 @@ def check_chain(ck, case, res, seed, tier):
             P.append(None)
         M.append(model_from_drv(d) if d and d.get("ok") else None)
 
-    prev_conv = None
+    for f in case["feats"]:
+        ck.count("chains with feature " + f.split(":")[0])
+    ck.count("chains: approx " + case["approx"].split(":")[0])
+    ck.count("chains: ids " + case["idclass"])
     for k in range(ROUNDS):
         g = runs[k]
         rm_obs = [e for e in g.trace if e.get("kind") == "rm_obs_abs_term"]
